@@ -322,6 +322,10 @@ class Execution:
             else:
                 res = state.get("upd", first)(active_state, preceding)
             on_created(res)
+            if "C11" in ex.mon and ex.commits:
+                # right after the activator has updated its internal states, before any handler works with them
+                ex._snap = None
+                ex.check_c11()
             return res
         act.get_event_handlers_to_run = wrapper
         self._real_get = lambda: state.get("upd", first)
